@@ -28,6 +28,7 @@ from . import cpu_count, get_context
 from . import util
 from .common import (
     TERM_SIGNAL, human_status, pickle_loads, reset_signals, restart_state,
+    _should_have_exited,
 )
 from .compat import get_errno, mem_rss, send_offset
 from .einfo import ExceptionInfo
@@ -348,6 +349,11 @@ class Worker:
         completed = 0
         try:
             while maxtasks is None or (maxtasks and completed < maxtasks):
+                if _should_have_exited[0]:
+                    # a termination signal was received while a task was
+                    # running (and the task swallowed the exit request):
+                    # do not take further jobs.
+                    raise SystemExit(EX_FAILURE)
                 req = wait_for_job()
                 if req:
                     type_, args_ = req
@@ -361,6 +367,11 @@ class Worker:
                     try:
                         result = (True, prepare_result(fun(*args, **kwargs)))
                     except BaseException:
+                        if _should_have_exited[0]:
+                            # SystemExit raised by the termination signal
+                            # handler: this is not the task's outcome,
+                            # the process has to exit.
+                            raise
                         result = (False, ExceptionInfo())
                     try:
                         put((READY, (job, i, result, inqW_fd)))
@@ -422,6 +433,7 @@ class Worker:
 
         # Make sure all exiting signals call finally: blocks.
         # This is important for the semaphore to be released.
+        _should_have_exited[0] = False   # (not inherited from the parent)
         reset_signals(full=self.sigprotection)
 
         # install signal handler for soft timeouts.
